@@ -27,80 +27,87 @@ Definition change_permissions (s : st) (dest : path) (dest_mode : N) (mode : N) 
 Definition read_src (w : world) (src : path) : option string :=
   match stat w src with Some (NFile c _) => Some c | _ => None end.
 
+(* 1. open dest for reading, else create it (real run) or use an anonymous tempfile (check).
+      Result: state, and (content, st_mode) of the opened file; None = the read fails (EISDIR) *)
+Definition open_dest (e : env) (dest : path) (check : bool) (s0 : st) : option (st * option (string * N)) :=
+  match stat (sw s0) dest with
+  | Some (NFile c m) => Some (s0, Some (c, st_mode (NFile c m)))
+  | Some (NDir _) => Some (s0, None)
+  | _ =>
+      if check then Some (log1 s0 ATmpAnon (sw s0), Some ("", ifreg + mask_perm (tmpmode e)))
+      else match sys_create e s0 dest with
+           | Some s1 => Some (s1, Some ("", ifreg + mask_perm (file_create_mode e)))
+           | None => None
+           end
+  end.
+
+Definition desired_content (i : input) (w : world) : option string :=
+  match i with
+  | IContent c => Some c
+  | ISrc src => read_src w src
+  end.
+
+(* 3. write the content if it differs (toggling the write bit of a read-only file) *)
+Definition content_phase (dest : path) (content want : string) (dest_mode : N) (check : bool) (s1 : st)
+  : option (st * bool) :=
+  if String.eqb content want then Some (s1, false)
+  else if check then Some (s1, true)
+  else
+    let readonly := N.eqb (N.land dest_mode any_write) 0 in
+    let sa := if readonly then sys_chmod s1 dest (N.lor dest_mode write_bit) else Some s1 in
+    match sa with
+    | None => None
+    | Some sa =>
+        match sys_write sa dest want with
+        | None => None
+        | Some sb =>
+            if readonly
+            then match sys_chmod sb dest dest_mode with Some sc => Some (sc, true) | None => None end
+            else Some (sb, true)
+        end
+    end.
+
+(* 4. mode *)
+Definition mode_phase (p : copy_params) (dest_mode : N) (check : bool) (ch1 : bool) (s2 : st) : result * st :=
+  let dest := cp_dest p in
+  match cp_mode p with
+  | MNone => (ROk ch1, s2)
+  | MPreserve =>
+      match cp_input p with
+      | ISrc src =>
+          match stat (sw s2) src with
+          | Some n =>
+              match change_permissions s2 dest dest_mode (st_mode n) check with
+              | Some (s3, ch2) => (ROk (orb ch1 ch2), s3)
+              | None => (RErr, s2)
+              end
+          | None => (RErr, s2)
+          end
+      | IContent _ => (RErr, s2)
+      end
+  | MStr ms =>
+      match parse_octal ms with
+      | OErr => (RErr, s2)
+      | OOk m =>
+          match change_permissions s2 dest dest_mode m check with
+          | Some (s3, ch2) => (ROk (orb ch1 ch2), s3)
+          | None => (RErr, s2)
+          end
+      end
+  end.
+
 Definition copy_file (e : env) (p : copy_params) (check : bool) (s0 : st) : result * st :=
   let dest := cp_dest p in
-  (* 1. open dest for reading, else create it (real run) or use an anonymous tempfile (check) *)
-  let opened : option (st * option (string * N)) :=
-    match stat (sw s0) dest with
-    | Some (NFile c m) => Some (s0, Some (c, st_mode (NFile c m)))
-    | Some (NDir _) => Some (s0, None)                    (* open succeeds, read fails: EISDIR *)
-    | _ =>
-        if check then Some (log1 s0 ATmpAnon (sw s0), Some ("", ifreg + mask_perm (tmpmode e)))
-        else match sys_create e s0 dest with
-             | Some s1 => Some (s1, Some ("", ifreg + file_create_mode e))
-             | None => None
-             end
-    end in
-  match opened with
+  match open_dest e dest check s0 with
   | None => (RErr, s0)
   | Some (s1, None) => (RErr, s1)
   | Some (s1, Some (content, dest_mode)) =>
-      (* 2. desired content *)
-      let desired : option string :=
-        match cp_input p with
-        | IContent c => Some c
-        | ISrc src => read_src (sw s1) src
-        end in
-      match desired with
+      match desired_content (cp_input p) (sw s1) with
       | None => (RErr, s1)
       | Some want =>
-          (* 3. content *)
-          let after_content : option (st * bool) :=
-            if String.eqb content want then Some (s1, false)
-            else if check then Some (s1, true)
-            else
-              let readonly := N.eqb (N.land dest_mode any_write) 0 in
-              let sa := if readonly then sys_chmod s1 dest (N.lor dest_mode write_bit) else Some s1 in
-              match sa with
-              | None => None
-              | Some sa =>
-                  match sys_write sa dest want with
-                  | None => None
-                  | Some sb =>
-                      if readonly
-                      then match sys_chmod sb dest dest_mode with Some sc => Some (sc, true) | None => None end
-                      else Some (sb, true)
-                  end
-              end in
-          match after_content with
+          match content_phase dest content want dest_mode check s1 with
           | None => (RErr, s1)
-          | Some (s2, ch1) =>
-              (* 4. mode *)
-              match cp_mode p with
-              | MNone => (ROk ch1, s2)
-              | MPreserve =>
-                  match cp_input p with
-                  | ISrc src =>
-                      match stat (sw s2) src with
-                      | Some n =>
-                          match change_permissions s2 dest dest_mode (st_mode n) check with
-                          | Some (s3, ch2) => (ROk (orb ch1 ch2), s3)
-                          | None => (RErr, s2)
-                          end
-                      | None => (RErr, s2)
-                      end
-                  | IContent _ => (RErr, s2)
-                  end
-              | MStr ms =>
-                  match parse_octal ms with
-                  | OErr => (RErr, s2)
-                  | OOk m =>
-                      match change_permissions s2 dest dest_mode m check with
-                      | Some (s3, ch2) => (ROk (orb ch1 ch2), s3)
-                      | None => (RErr, s2)
-                      end
-                  end
-              end
+          | Some (s2, ch1) => mode_phase p dest_mode check ch1 s2
           end
       end
   end.
